@@ -8,7 +8,7 @@ open Index
 /-- the flags `record_fixture_definition` receives: they depend on the path and on state that no
     analysis changes (plugin files, editable installs, workspace root). -/
 def stampDef (pfx : Path) (st : Index) (f : Path) (d : Def) : Def :=
-  { d with thirdParty := pathMentionsSitePackages pfx f || st.editableThirdParty f,
+  { d with thirdParty := inSitePackages pfx st f || st.editableThirdParty f,
            plugin := st.pluginFiles.contains f }
 
 def eventDefs : List Event → List Def
@@ -28,7 +28,7 @@ def sameEnv (a b : Index) : Prop :=
 theorem stampDef_env {pfx : Path} {a b : Index} (h : sameEnv a b) (f : Path) (d : Def) :
     stampDef pfx a f d = stampDef pfx b f d := by
   obtain ⟨h1, h2, h3⟩ := h
-  simp [stampDef, editableThirdParty, h1, h2, h3]
+  simp [stampDef, editableThirdParty, inSitePackages, h1, h2, h3]
 
 theorem scanStep_fields (f : Path) (b : BodyScan) (st : Index) (r : NameRef) :
     (scanStep f b st r).defs = st.defs ∧ (scanStep f b st r).fileDefs = st.fileDefs ∧
